@@ -970,7 +970,10 @@ def main(ctx):
 
     from mc.longarr import marks as _marks
     # universal marks (mc/longarr.py): multiples of as many block sizes as possible, each with mark-1, mark, mark+1
-    LONGN = sorted({4096, 65537, 99999, 100000, 100001} | {m + d for m in _marks(ctx) for d in (-1, 0, 1)})
+    from mc.longarr import harvest_lengths
+    _hl, _hb = harvest_lengths([nu])
+    ctx.notes.append("long-arrays: integer constants harvested from esutil.numpy_util: %r" % (_hb,))
+    LONGN = sorted({4096, 65537, 99999, 100000, 100001} | {m + d for m in _marks(ctx) for d in (-1, 0, 1)} | {n for n in _hl if n >= 1000})
     lfunits = [(op, n) for op in ("extract", "remove", "reorder", "add", "combine")
                for n in LONGN]
     ctx.lattice("long-arrays", lfunits, one_longfields, bounds=dict(lengths=LONGN))
